@@ -537,9 +537,9 @@ def run(ctx):
                 leaves['n'] += res.detail.get('leaves', 0)
             return res
         return f
-    if not ctx.search('enum_incremental', inc_cases(), wrap(run_enum_incremental), ctx.n(24, 300), shrink=ctx.thorough()):
+    if not ctx.search('enum_incremental', inc_cases(), wrap(run_enum_incremental), ctx.n(24, 160), shrink=ctx.thorough()):
         return
-    if not ctx.search('enum_batch', batch_cases(1100 if not ctx.thorough() else 2000), wrap(run_enum_batch), ctx.n(40, 500), shrink=ctx.thorough()):
+    if not ctx.search('enum_batch', batch_cases(1100 if not ctx.thorough() else 2000), wrap(run_enum_batch), ctx.n(40, 300), shrink=ctx.thorough()):
         return
     ctx.extra['enumerated_leaves'] = leaves['n']
     # layer 2
